@@ -212,6 +212,9 @@ func (p *Program) computeReadonlyX(fi *FuncInfo, onlyRecv bool) bool {
 		pv := sig.Params().At(i)
 		switch pv.Type().Underlying().(type) {
 		case *types.Pointer, *types.Map:
+			if isHTMLNode(derefType(pv.Type())) {
+				continue // x/net/html trees are opaque and not part of the modelled state (A9): nothing to frame
+			}
 			ptrs[pv] = true
 		}
 	}
@@ -455,13 +458,31 @@ func (p *Program) ReadsField(fi *FuncInfo, field string, seen map[*FuncInfo]bool
 	}
 	rt := derefType(sig.Recv().Type())
 	found := false
+	// pure stores (recv.f = v, recv.f[k] = v) write the field without reading what it held
+	storeOnly := map[*ast.SelectorExpr]bool{}
+	ast.Inspect(fi.Decl.Body, func(n ast.Node) bool {
+		if as, ok := n.(*ast.AssignStmt); ok && as.Tok == token.ASSIGN {
+			for _, l := range as.Lhs {
+				l = ast.Unparen(l)
+				if ix, ok := l.(*ast.IndexExpr); ok {
+					if _, isMap := info.TypeOf(ix.X).Underlying().(*types.Map); isMap {
+						l = ast.Unparen(ix.X)
+					}
+				}
+				if se, ok := l.(*ast.SelectorExpr); ok {
+					storeOnly[se] = true
+				}
+			}
+		}
+		return true
+	})
 	ast.Inspect(fi.Decl.Body, func(n ast.Node) bool {
 		if found {
 			return false
 		}
 		switch e := n.(type) {
 		case *ast.SelectorExpr:
-			if sel, ok := info.Selections[e]; ok && sel.Kind() == types.FieldVal && e.Sel.Name == field {
+			if sel, ok := info.Selections[e]; ok && sel.Kind() == types.FieldVal && e.Sel.Name == field && !storeOnly[e] {
 				if types.Identical(derefType(info.TypeOf(e.X)), rt) {
 					found = true
 				}
@@ -1223,4 +1244,9 @@ func (p *Program) WhyReach(from, to string) []string {
 		}
 	}
 	return nil
+}
+
+func isHTMLNode(t types.Type) bool {
+	n, ok := t.(*types.Named)
+	return ok && n.Obj().Pkg() != nil && n.Obj().Pkg().Path() == "golang.org/x/net/html" && n.Obj().Name() == "Node"
 }
